@@ -65,7 +65,7 @@ func runC19(c *Ctx) {
 	}
 	n := c.Pick(1500, 30000)
 	var mu sync.Mutex
-	var evals int64
+	var evals, preN int64
 	distinct := mon.NewDistinct(1_000_000)
 	lenClass := func(l int) int {
 		switch {
@@ -178,6 +178,21 @@ func runC19(c *Ctx) {
 		if tool == 1 {
 			exe = cas
 		}
+		// the output path may already hold an older (longer or shorter) file
+		preexisting := r.Intn(3) == 0
+		if preexisting {
+			old := make([]byte, len(want)+1+r.Intn(64))
+			if r.Intn(3) == 0 {
+				old = old[:r.Intn(len(want))]
+			}
+			for i := range old {
+				old[i] = 0xee
+			}
+			os.WriteFile(filepath.Join(dir, outName), old, 0o644)
+			mu.Lock()
+			preN++
+			mu.Unlock()
+		}
 		cmd := exec.Command(exe, args...)
 		cmd.Dir = dir
 		var stderr bytes.Buffer
@@ -228,8 +243,9 @@ func runC19(c *Ctx) {
 		}
 	})
 	c.R.Set("evaluations", evals)
+	c.R.Set("runs_over_preexisting_output", preN)
 	c.R.Set("distinct_nontrivial", distinct.N())
 	c.R.Set("exhaustive", false)
-	c.R.Set("rule", "the built cmd/cim2bin and cmd/cim2cas binaries are run (cwd = scratch dir) on generated images: lengths {1,2,255,256,257, up to 2048, and the maximal length whose last byte lands exactly on FFFF (1/3 of cases) or just below} with arbitrary contents incl. CR LF ^Z NUL, offsets {0,1,00FF,0100,8000,A000 (explicit and default),FF00,FFFF, near FFFF, random} in decimal or 0x form, names of length 1..12 over all byte values incl. spaces, control bytes, valid multi-byte UTF-8 and invalid UTF-8, and the default name (the -cim argument, file names of 1..12 chars); output bytes compared with the layout written out from the property. Distinct = distinct (tool, length, offset, name length) tuples; every invocation is non-trivial")
+	c.R.Set("rule", "the built cmd/cim2bin and cmd/cim2cas binaries are run (cwd = scratch dir) on generated images: lengths {1,2,255,256,257, up to 2048, and the maximal length whose last byte lands exactly on FFFF (1/3 of cases) or just below} with arbitrary contents incl. CR LF ^Z NUL, offsets {0,1,00FF,0100,8000,A000 (explicit and default),FF00,FFFF, near FFFF, random} in decimal or 0x form, names of length 1..12 over all byte values incl. spaces, control bytes, valid multi-byte UTF-8 and invalid UTF-8, and the default name (the -cim argument, file names of 1..12 chars); in 1/3 of the runs the output path already holds an older longer/shorter file; output bytes compared with the layout written out from the property. Distinct = distinct (tool, length, offset, name length) tuples; every invocation is non-trivial")
 	c.R.Assume("I/O error behaviour is outside the property; end address always fits in 16 bits")
 }
